@@ -706,6 +706,10 @@ func main() {
 				fail(err)
 			}
 		}
+	case "c08":
+		if err := runC08(rng, sf.Sample, emit); err != nil {
+			fail(err)
+		}
 	case "c18":
 		for _, cs := range sf.Cases {
 			victim, _ := cs[0].(string)
